@@ -51,7 +51,8 @@ SkelInit == sk \in SkelSet /\ a = 0 /\ b = 0 /\ c = 0 /\ done = FALSE
 (* ---- family "tflow": sequences of up to MaxNodes types assigned to one name, at each kind of site (C02) ---- *)
 Types == <<"int", "float", "bool", "str">>
 Sites == <<"straight", "taken-branch", "untaken-branch", "else-branch", "for-body", "while-body", "function-local",
-           "param-two-call-sites", "return-join", "hoisted-from-branch", "hoisted-from-loop", "augmented", "swap">>
+           "param-two-call-sites", "return-join", "hoisted-from-branch", "hoisted-from-loop", "augmented", "swap",
+           "tuple-reads-earlier-target", "comprehension-shadows-name", "comprehension-shadows-parameter", "query-result">>
 TFlowInit == /\ a \in 1..Len(Sites) /\ b \in 1..Len(Types)
              /\ c \in (IF MaxNodes >= 2 THEN 0..Len(Types) ELSE {0}) /\ done = FALSE
 TFlowCase == [fam |-> "tflow", site |-> Sites[a], t1 |-> Types[b], t2 |-> (IF c = 0 THEN "none" ELSE Types[c])]
